@@ -72,13 +72,17 @@ DoAcc(r) ==
 \* A BATCH of accesses in one call (what the consumer of the access buffers does): the result must be the one of its accesses
 \* applied one after the other, ageing included at exactly the configured count.  The first-access filter is a bloom filter:
 \* its answer for an element is the logged one (r.has[i], read before the call) as long as the batch has not aged the sketch and
-\* the hash has not occurred in the batch before; it is yes for a hash the batch itself added since the last ageing; otherwise
-\* (first occurrence after an ageing inside the batch) it is unknown and both answers are followed.
+\* the hash has not occurred in the batch before (a logged "no" may have turned into a false positive if the batch has added
+\* other hashes meanwhile: then both answers are followed); it is yes for a hash the batch itself added since the last ageing;
+\* otherwise (first occurrence after an ageing inside the batch) it is unknown and both answers are followed.
 RECURSIVE BatchStates(_, _, _, _, _)
 BatchStates(S, r, i, agedYet, added) ==     \* S: set of [st, cnt] after the first i-1 elements
   IF i > Len(r.hs) THEN S
   ELSE LET h == r.hs[i] pos == r.poss[i]
-           answers == IF h \in added THEN {TRUE} ELSE IF ~agedYet THEN {r.has[i]} ELSE {TRUE, FALSE}
+           \* (a hash the filter did not know before the call may have become a false positive through what the batch itself added)
+           answers == IF h \in added THEN {TRUE}
+                      ELSE IF ~agedYet THEN (IF r.has[i] THEN {TRUE} ELSE IF added = {} THEN {FALSE} ELSE {TRUE, FALSE})
+                      ELSE {TRUE, FALSE}
            nxt == UNION {{LET ages == Aged(x.st, h, pos, a)
                               st2 == Access(x.st, h, pos, a)
                               c2 == IF ages THEN [k \in {} |-> 0] ELSE [k \in DOMAIN x.cnt \cup {h} |-> IF k = h THEN GetC(x.cnt, h) + 1 ELSE x.cnt[k]]
